@@ -205,6 +205,8 @@ def stepLine (st : St) (toks : List String) : St × String :=
       match parseSet xs with
       | some xs => setAnswer st (.replace xs) (fun m => showSet m.2)
       | none => (st, "bad-op")
+    | .set, ["replace-self"] => setAnswer st (.replaceView id) (fun m => showSet m.2)
+    | .set, ["replace-view"] => setAnswer st (.replaceView id) (fun m => showSet m.2)
     | .var, ["set", v] =>
       match v.toNat? with
       | some v => varAnswer st (fun _ => v) (toString st.value)
